@@ -96,3 +96,7 @@ class EmptyLogSource(SigmaLogSource):
     def __post_init__(self) -> None:
         # Do not raise an error for empty log source
         pass
+
+    def __contains__(self, other: "SigmaLogSource") -> bool:
+        # The placeholder stands for an invalid log source and therefore matches nothing.
+        return False
